@@ -24,10 +24,32 @@ def ondisk_fields(e):
 
 
 class FnTaint:
-    def __init__(self, fn):
+    def __init__(self, fn, prog=None, _depth=0):
         self.fn = fn
+        self.prog = prog     # when given, file-local callees are looked into for what they store through out-parameters
+        self._depth = _depth
         self.src = {}        # local name -> set of on-disk fields it derives from
         self._fix()
+
+    def _out_param_sources(self, call, idx):
+        """on-disk fields a file-local callee stores through its parameter number idx (`*p = …`), None if the callee
+        cannot be looked into"""
+        if self.prog is None or self._depth >= 2:
+            return None
+        name = call.get("fn")
+        if not name:
+            return None
+        out = None
+        for g in self.prog.lookup(name, self.fn):
+            if g.file != self.fn.file or idx >= len(g.params):
+                continue
+            p_ = g.params[idx]
+            gt = FnTaint(g, self.prog, self._depth + 1)
+            for n in g.events("S"):
+                l = T.strip(n.ev["lhs"])
+                if isinstance(l, dict) and l.get("k") == "u" and l.get("o") == "*" and T.path(l.get("e")) == p_:
+                    out = (out or set()) | gt.sources(n.ev.get("rhs") or {})
+        return out
 
     def _fix(self):
         changed = True
@@ -65,16 +87,18 @@ class FnTaint:
                         t = a.get("t", "").replace("struct ", "").replace("const ", "").strip()
                         if t.endswith("*") and t[:-1].strip() in ONDISK:
                             recs.add(t[:-1].strip())
-                if not recs:
-                    continue
                 nm = c.get("fn") or c.get("mac") or "call"
-                for a in args:
+                for ai, a in enumerate(args):
                     a = T.strip(a)
                     if isinstance(a, dict) and a.get("k") == "u" and a.get("o") == "&":
                         v = T.strip(a.get("e"))
                         if isinstance(v, dict) and v.get("k") == "v" and v.get("s") == "l" and "*" not in v.get("t", "") \
                                 and "struct" not in v.get("t", ""):
-                            srcs = {"%s.(%s)" % (r, nm) for r in recs}
+                            srcs = self._out_param_sources(c, ai)
+                            if not srcs:
+                                srcs = {"%s.(%s)" % (r, nm) for r in recs}
+                            if not srcs:
+                                continue
                             if not srcs <= self.src.get(v["n"], set()):
                                 self.src[v["n"]] = self.src.get(v["n"], set()) | srcs
                                 changed = True
@@ -315,7 +339,10 @@ class FnTaint:
             return None
         if vague[0] or "?" in sh:
             return None
-        return sh
+        # a local that holds one on-disk field reads like the field itself: whether the value took a detour through
+        # a variable (or a helper's out-parameter) is not part of the comparison's meaning
+        import re as _re
+        return _re.sub(r"<([^<>|]+)>", r"\1", sh)
 
 
 def _is_ptr(p):
